@@ -145,8 +145,11 @@ CLAIMED = {
             'Static, the mask protocol only (that the returned formulas are interpolants and chain by implication is a statement about run-time formulas and is not decided): '
             'Interpret::getInterpolants builds the A-masks of a sequence request cumulatively - one mask variable that lives across the group loop, only gains bits, and is appended '
             'exactly once per accepted group, for groups 1..k-1 in order - and InterpolationContext::getPathInterpolants answers every mask in order with exactly one interpolant; '
-            'the front end asks for the path form exactly when there is more than one mask.',
-            'static analysis: path walk of one group-loop iteration (monotone accumulator, append count) + loop-range rules over the mini-AST', ''),
+            'the front end asks for the path form exactly when there is more than one mask. For the proof-sensitive algorithms (PS, PSW, PSS) additionally: the colour given to a '
+            'shared variable, obtained by abstractly evaluating computePSFunction for every cut of a five-leaf proof and composing it with the label -> colour lambdas of '
+            'setLeafPS/PSW/PSSLabeling, only moves from b towards a as the cut moves right - the condition under which a family of labelled interpolation systems has the '
+            'path-interpolation property.',
+            'static analysis: path walk of one group-loop iteration (monotone accumulator, append count) + loop-range rules over the mini-AST + abstract evaluation of the PS labelling function over all cuts of a small proof', ''),
     'C14': ('other',
             'Static, the Boolean simplifying constructors only: Logic::mkNot, mkXor, mkImpl, mkIte, mkBinaryEq (Boolean arguments), mkAnd, mkOr touch their arguments only through '
             'identity comparisons and isTrue / isFalse / isNot, so their behaviour is a function of a finite set of argument patterns; every pattern over '
